@@ -24,6 +24,7 @@ const (
 	FShort1     = "short1"      // 1 byte written, then error
 	FShortMid   = "shortmid"    // about half written (whole records when the batch has >= 2), then error
 	FShortEnd   = "shortend"    // all but the last byte written, then error
+	FShortN     = "shortn"      // exactly Plan.Bytes bytes written (capped at len-1), then error
 	FSeek       = "seek"        // Seek returns an error
 	FStat       = "stat"        // Stat returns an error
 	FSync       = "sync"        // Sync returns an error
@@ -38,7 +39,7 @@ var WriteKinds = []string{FWrite0, FShort1, FShortMid, FShortEnd}
 // MethodOf maps a fault kind to the wrapped method it hits.
 func MethodOf(kind string) string {
 	switch kind {
-	case FWrite0, FShort1, FShortMid, FShortEnd:
+	case FWrite0, FShort1, FShortMid, FShortEnd, FShortN:
 		return "write"
 	case FDBNoRun, FDBRollback:
 		return "update"
@@ -50,11 +51,15 @@ func MethodOf(kind string) string {
 var ErrInjected = errors.New("verif: injected fault")
 
 // Plan is one single transient fault: the Index-th call (0-based, counted
-// from Arm) of the method that Kind hits, on Target.
+// from Arm) of the method that Kind hits, on Target. With Every set, every
+// call from the Index-th on fails (a fault that does not go away while the
+// operation runs).
 type Plan struct {
 	Target string `json:"target"`
 	Kind   string `json:"kind"`
 	Index  int    `json:"index"`
+	Bytes  int    `json:"bytes,omitempty"` // FShortN: bytes that reach the file
+	Every  bool   `json:"every,omitempty"`
 }
 
 // Ctl is shared by the DB wrapper and the two file wrappers of one set of
@@ -62,8 +67,8 @@ type Plan struct {
 // whether a call is the one to fail.
 type Ctl struct {
 	mu     sync.Mutex
-	plan   *Plan
-	fired  bool
+	plans  []Plan // usually one; several = a fault sequence within one call
+	fired  []bool
 	counts map[string]int
 	// ShortN is the number of bytes the last injected short write let
 	// through; ShortOf the length that was asked for.
@@ -74,35 +79,62 @@ func NewCtl() *Ctl { return &Ctl{counts: map[string]int{}} }
 
 // Arm resets the call counters and installs p (nil = count only).
 func (c *Ctl) Arm(p *Plan) {
+	if p == nil {
+		c.ArmAll()
+		return
+	}
+	c.ArmAll(*p)
+}
+
+// ArmAll resets the call counters and installs a fault sequence: every plan
+// fires independently of the others at its own position.
+func (c *Ctl) ArmAll(ps ...Plan) {
 	c.mu.Lock()
-	c.plan, c.fired, c.counts = p, false, map[string]int{}
+	c.plans, c.fired, c.counts = append([]Plan(nil), ps...), make([]bool, len(ps)), map[string]int{}
 	c.ShortN, c.ShortOf = 0, 0
 	c.mu.Unlock()
 }
 
-// Disarm removes the plan and returns whether it fired and the call counts
-// observed since Arm.
+// Disarm removes the plan(s) and returns whether all of them fired (false
+// when none was armed) and the call counts observed since Arm.
 func (c *Ctl) Disarm() (bool, map[string]int) {
+	fired, n := c.DisarmAll()
+	all := len(fired) > 0
+	for _, f := range fired {
+		all = all && f
+	}
+	return all, n
+}
+
+// DisarmAll removes the plans and returns which of them fired and the call
+// counts observed since Arm.
+func (c *Ctl) DisarmAll() ([]bool, map[string]int) {
 	c.mu.Lock()
 	defer c.mu.Unlock()
 	f, n := c.fired, c.counts
-	c.plan, c.fired, c.counts = nil, false, map[string]int{}
+	c.plans, c.fired, c.counts = nil, nil, map[string]int{}
 	return f, n
 }
 
-// hit counts one call and returns the kind to inject ("" = none).
-func (c *Ctl) hit(target, method string) string {
+// hit counts one call and returns the plan to inject (nil = none).
+func (c *Ctl) hit(target, method string) *Plan {
 	c.mu.Lock()
 	defer c.mu.Unlock()
 	key := target + "/" + method
 	idx := c.counts[key]
 	c.counts[key] = idx + 1
-	p := c.plan
-	if p == nil || c.fired || p.Target != target || MethodOf(p.Kind) != method || p.Index != idx {
-		return ""
+	for i := range c.plans {
+		p := &c.plans[i]
+		if p.Target != target || MethodOf(p.Kind) != method {
+			continue
+		}
+		if p.Every && idx >= p.Index || !c.fired[i] && p.Index == idx {
+			c.fired[i] = true
+			q := *p
+			return &q
+		}
 	}
-	c.fired = true
-	return p.Kind
+	return nil
 }
 
 // FaultFile wraps the flat file of one store. Without an armed plan it is a
@@ -128,8 +160,8 @@ func (f *FaultFile) State() string { f.mu.Lock(); defer f.mu.Unlock(); return f.
 func (f *FaultFile) setState(s string) { f.mu.Lock(); f.state = s; f.mu.Unlock() }
 
 func (f *FaultFile) Write(p []byte) (int, error) {
-	kind := f.ctl.hit(f.target, "write")
-	if kind == "" {
+	plan := f.ctl.hit(f.target, "write")
+	if plan == nil {
 		n, err := f.File.Write(p)
 		if n > 0 {
 			f.setState("written")
@@ -137,7 +169,9 @@ func (f *FaultFile) Write(p []byte) (int, error) {
 		return n, err
 	}
 	n := 0
-	switch kind {
+	switch plan.Kind {
+	case FShortN:
+		n = plan.Bytes
 	case FShort1:
 		n = 1
 	case FShortEnd:
@@ -168,28 +202,28 @@ func (f *FaultFile) Write(p []byte) (int, error) {
 }
 
 func (f *FaultFile) Seek(off int64, whence int) (int64, error) {
-	if f.ctl.hit(f.target, "seek") != "" {
+	if f.ctl.hit(f.target, "seek") != nil {
 		return 0, ErrInjected
 	}
 	return f.File.Seek(off, whence)
 }
 
 func (f *FaultFile) Stat() (os.FileInfo, error) {
-	if f.ctl.hit(f.target, "stat") != "" {
+	if f.ctl.hit(f.target, "stat") != nil {
 		return nil, ErrInjected
 	}
 	return f.File.Stat()
 }
 
 func (f *FaultFile) Sync() error {
-	if f.ctl.hit(f.target, "sync") != "" {
+	if f.ctl.hit(f.target, "sync") != nil {
 		return ErrInjected
 	}
 	return f.File.Sync()
 }
 
 func (f *FaultFile) Truncate(size int64) error {
-	if f.ctl.hit(f.target, "truncate") != "" {
+	if f.ctl.hit(f.target, "truncate") != nil {
 		return ErrInjected
 	}
 	err := f.File.Truncate(size)
@@ -244,7 +278,11 @@ func NewFaultDB(db walletdb.DB, ctl *Ctl) *FaultDB { return &FaultDB{DB: db, ctl
 
 // Update is what walletdb.Update(db, f) calls.
 func (d *FaultDB) Update(f func(tx walletdb.ReadWriteTx) error, reset func()) error {
-	switch d.ctl.hit(TDB, "update") {
+	kind := ""
+	if p := d.ctl.hit(TDB, "update"); p != nil {
+		kind = p.Kind
+	}
+	switch kind {
 	case FDBNoRun:
 		return ErrInjected
 	case FDBRollback:
@@ -263,7 +301,7 @@ func (d *FaultDB) Update(f func(tx walletdb.ReadWriteTx) error, reset func()) er
 // BeginReadWriteTx is not used by headerfs today; counted and failed the same
 // way so that a future switch to explicit transactions stays covered.
 func (d *FaultDB) BeginReadWriteTx() (walletdb.ReadWriteTx, error) {
-	if d.ctl.hit(TDB, "update") != "" {
+	if d.ctl.hit(TDB, "update") != nil {
 		return nil, ErrInjected
 	}
 	return d.DB.BeginReadWriteTx()
